@@ -2,12 +2,14 @@
 """Print the prompt handed to a seeding sub-agent for one property (only the property text + its scratch worktree)."""
 import json, sys
 pid = sys.argv[1]
+clause = sys.argv[2] if len(sys.argv) > 2 else None
 rec = None
 for l in open('/verif/properties.jsonl'):
     p = json.loads(l)
     if p['id'] == pid:
         rec = p
 text = json.dumps({k: rec[k] for k in ('id', 'title', 'statement', 'quantifier', 'why_tests_cant', 'anchors')}, indent=1)
+clause_text = ("\nTarget in particular this part of the property: " + clause) if clause else ""
 print(f"""You are helping to evaluate a verification tool for the Rust crate rs-opw-kinematics (analytical inverse/forward kinematics for 6-axis OPW robots, with constraints, tool/base frames, Jacobian, collisions and path planning).
 
 Your own scratch git worktree of the crate is at /tmp/seed/{pid}/wt (work ONLY there and in /tmp/seed/{pid}/out; never touch /repo, never read or touch /verif, and do not look at other directories under /tmp/seed).
@@ -20,7 +22,7 @@ TASK: craft ONE realistic change (a plausible bug a developer could introduce: a
   (a) the crate still compiles,
   (b) the existing test suite still passes unchanged (do not edit, delete or add to existing tests or test data), and
   (c) the breakage needs something specific to manifest - an unusual input, a particular parameter combination (e.g. non-zero offsets, b != 0, negative sign corrections, wrap-around limits, 5-DOF robot, a wrapper stack), a multi-step sequence of operations, or two cooperating sites that each look fine alone - NOT something that ordinary use or the existing tests would expose at once.
-Prefer a subtle semantic change over a crude one; keep the diff small (a few lines). Do not add comments that reveal the bug.
+Prefer a subtle semantic change over a crude one; keep the diff small (a few lines). Do not add comments that reveal the bug.{clause_text}
 
 Build/test recipe (offline sandbox; always use these env vars; your own warm target dir makes builds take about 1-2 minutes; after switching the source between patched/unpatched run `touch src/*.rs src/*/*.rs` so cargo rebuilds):
   cd /tmp/seed/{pid}/wt
